@@ -235,7 +235,7 @@ NT = {"later_report_omits_letter", "repeated_letter"}
 
 def run_shard(ctx):
     from hypothesis import strategies as st
-    n = 500 if ctx.tier == "quick" else 8000
+    n = 500 if ctx.tier == "quick" else 25000
 
     def body(case):
         cl = run_case(case, set())
